@@ -9,6 +9,7 @@ CONSTANTS NCalls,          \* concurrent calls on one client
           VarTrees,        \* the variables structures explored (see Trees below)
           HeaderModes,     \* how a call passes headers: "none" | "own" (fresh dict) | "own_ct" (fresh dict overriding
                            \* Content-Type) | "shared" (a dict the caller re-uses for several calls)
+          OpNames,         \* subset of OpNameModes explored
           Reuse,           \* BOOLEAN or {FALSE}: may a later call pass the very same variables OBJECT as call 1 (a retry)?
           Deviations       \* {} as built; "in_place_nulling" = separate_files writes null into the containers it walks
                            \* instead of rebuilding them (seeded change C11b): plain dicts below the top level are the caller's
@@ -92,7 +93,11 @@ MultipartSpec(vars_) ==
 \* ---- part 2: calls as processes --------------------------------------------------------------------------
 Calls == 1..NCalls
 NoReq == [kind |-> "none", vars |-> <<>>, map |-> <<>>, files |-> <<>>, ctype |-> "-", extra |-> "-"]
-VARIABLES args,         \* per call: [vars, hdr, reuse]; reuse = the call passes the same variables object as call 1
+\* the operation name is a separate argument of execute(): given ("named"), passed as None, or omitted; the body's
+\* operationName member is the given name, or JSON null when there is none -- whichever client, tracer or not
+OpNameModes == {"named", "none", "omitted"}
+WireOpName(m) == IF m = "named" THEN "named" ELSE "null"
+VARIABLES args,         \* per call: [vars, hdr, reuse, opname]; reuse = the call passes the same variables object as call 1
           callerVars,   \* per call: the caller's variables object as the caller sees it NOW (identity: Obj(c))
           pc,           \* per call: "start" | "processed" | "sent" | "done"
           local,        \* per call: what _process_variables returned (call-local state)
@@ -103,7 +108,7 @@ vars == <<args, callerVars, pc, local, wire, sharedHdr, outcome>>
 Obj(c) == IF args[c].reuse THEN 1 ELSE c
 
 Init ==
-  /\ args \in {a \in [Calls -> [vars : VarTrees, hdr : HeaderModes, reuse : Reuse]] :
+  /\ args \in {a \in [Calls -> [vars : VarTrees, hdr : HeaderModes, reuse : Reuse, opname : OpNames]] :
                   ~a[1].reuse /\ \A c \in Calls : a[c].reuse => a[c].vars = a[1].vars}
   /\ callerVars = [c \in Calls |-> args[c].vars]
   /\ pc = [c \in Calls |-> "start"] /\ local = [c \in Calls |-> NoReq] /\ wire = [c \in Calls |-> NoReq]
